@@ -462,3 +462,13 @@ def run(ck, prog):
 EXPLANATION += (" Empty neighbourhood: predict returns noise for a row with no training point within eps - an emptiness test of the "
                 "radius query's result bypasses the vote, or the arg-max helper's tie class (first/last, read off the comparison that "
                 "replaces the running maximum) selects the noise slot on an all-zero table.")
+
+
+# ------------------------------------------------------------------ generic: signed counters are not cast to unsigned on their negative side
+_run_pre_negcast = run
+
+
+def run(ck, prog):
+    _run_pre_negcast(ck, prog)
+    from sa import negcast
+    negcast.run_rule(ck, prog, set(DIMENSION_FILES))
